@@ -185,7 +185,7 @@ def configs(model, r):
     else:
         for mirror in (False, True):
             for card in (None, "absent", 8192, 16384, 32768, 65536):
-                for ov in ("none", "ram", "rom", "overlap"):
+                for ov in ("none", "ram", "rom", "overlap", "adjacent"):
                     for ro in (0, 1, 2, 3, 4):
                         ranges = [[0x1000, 0x1007], [0xB8010, 0xB801F]][:ro]
                         if ro == 3:       # the same map listed in descending order
@@ -213,6 +213,10 @@ def _ovs(kind, r):
         return [{"kind": "rom", "start": base + 0x10, "size": 0x40, "seed": 5, "name": "xrom"}]
     if kind == "ro_nodata":   # a read-only window without backing data (Python only): nothing behind it may ever change
         return [{"kind": "rom", "start": base + 0x10, "size": 0x40, "seed": 5, "name": "xro", "data_len": 0}]
+    if kind == "adjacent":     # two overlays that TOUCH (and a third nested inside the first)
+        return [{"kind": "ram", "start": base + 0x10, "size": 0x40, "seed": 1, "name": "xram"},
+                {"kind": r.choice(("ram", "rom")), "start": base + 0x50, "size": 0x40, "seed": 5, "name": "xnext"},
+                {"kind": "ram", "start": base + 0x20, "size": 0x08, "seed": 9, "name": "xinner"}]
     return [{"kind": "ram", "start": base + 0x10, "size": 0x40, "seed": 1, "name": "xram"},
             {"kind": "rom", "start": base + 0x30, "size": 0x40, "seed": 5, "name": "xrom"}]
 
@@ -398,9 +402,15 @@ def run_rs_batch(res, jobs):
                 if nb > 1:
                     res.monitor("le_composition")
                 if o.get("v") != want:
-                    res.violation({"clause": "read_value" if nb == 1 else "wide_load_not_byte_composition", "model": "rs",
-                                   "where": region(a, "rs", cfg), "bits": bits,
-                                   "straddle": straddles(ref, a, nb, "rs", cfg)}, case,
+                    sig_ = {"clause": "read_value" if nb == 1 else "wide_load_not_byte_composition", "model": "rs",
+                            "where": region(a, "rs", cfg), "bits": bits, "straddle": straddles(ref, a, nb, "rs", cfg)}
+                    if nb > 1:
+                        # every byte of the load lies inside SOME overlay (two overlays meeting, nested, overlapping): the
+                        # overlay reader composes such loads byte by byte - not the all-or-nothing fallback of the finding
+                        sig_["all_bytes_in_overlays"] = all(
+                            any(ov["start"] <= ((a + j) & 0xFFFFF) < ov["start"] + ov["size"] for ov in cfg.get("overlays", []))
+                            for j in range(nb)) and (a & 0xFFFFFF) < IMEM
+                    res.violation(sig_, case,
                                   {"step": i, "addr": hex(a), "got": o.get("v"), "want": want})
                     break
             else:
@@ -451,9 +461,13 @@ def run_cpu_path(res, r, n):
             if n_ <= 0xFC and n_ + bits // 8 - 1 >= 0xFB:
                 continue      # IMR/ISR: the byte-wise reference run could take an interrupt between its stores
             jobs.append({"imem_n": n_, "val": r.randrange(1 << 24) | 0x010101, "bits": bits})
+    # the crate's own PC-E500 loaders: ROM window images and full system images of several lengths
+    for which, ln in (("window", 0x40000), ("window", 0x8000), ("window", 0x100000), ("image", 0x100000), ("image", 0x40000),
+                      ("image", 0x100100), ("image", 0x8000)):
+        jobs.append({"loader": which, "len": ln})
     rr = rust.run("cpubus", jobs)
     for j, o in zip(jobs, rr):
-        res.monitor("cpu_path_imem" if "imem_n" in j else "cpu_path")
+        res.monitor("cpu_path_loader" if "loader" in j else ("cpu_path_imem" if "imem_n" in j else "cpu_path"))
         res.evaluations += 1
         if o.get("error") or not o.get("ok"):
             res.violation({"clause": "cpu_store_load", "model": "rs"}, j, o)
